@@ -73,6 +73,9 @@ type Path struct {
 	pcLen     int
 	asserted  int
 	MaxDecisions int
+	pc           []*sym.Term
+	Fallback     func() []*sym.Solver // lazily started alternative back ends
+	FallbackUsed int
 }
 
 func (m *Machine) ctx() *sym.Ctx { return m.path.Ctx }
@@ -112,9 +115,9 @@ func (m *Machine) branch(cond *sym.Term) bool {
 		p.Decisions = append(p.Decisions, d)
 		if !d.Forced {
 			if d.Taken {
-				p.Solver.Assert(cond)
+				p.assertPC(cond)
 			} else {
-				p.Solver.Assert(p.Ctx.Not(cond))
+				p.assertPC(p.Ctx.Not(cond))
 			}
 		}
 		if idx == len(p.Prefix)-1 {
@@ -132,7 +135,7 @@ func (m *Machine) branch(cond *sym.Term) bool {
 	} else {
 		other = cond
 	}
-	res, mod := p.Solver.Check(other, p.vars())
+	res, mod := p.solve(other, p.vars())
 	d := Decision{Taken: v}
 	switch res {
 	case sym.Unsat:
@@ -149,9 +152,9 @@ func (m *Machine) branch(cond *sym.Term) bool {
 	p.Decisions = append(p.Decisions, d)
 	if !d.Forced {
 		if v {
-			p.Solver.Assert(cond)
+			p.assertPC(cond)
 		} else {
-			p.Solver.Assert(p.Ctx.Not(cond))
+			p.assertPC(p.Ctx.Not(cond))
 		}
 	}
 	return v
@@ -164,7 +167,7 @@ func (m *Machine) endOfPrefix() {
 		// trust but verify cheaply: the model came from the query that created this item
 		return
 	}
-	res, mod := p.Solver.Check(nil, p.vars())
+	res, mod := p.solve(nil, p.vars())
 	switch res {
 	case sym.Sat:
 		p.setModel(mod)
@@ -261,7 +264,7 @@ func (m *Machine) check(c value, label string) {
 			d := p.Prefix[idx]
 			p.Decisions = append(p.Decisions, d)
 			if !d.Forced {
-				p.Solver.Assert(c)
+				p.assertPC(c)
 			}
 			if idx == len(p.Prefix)-1 {
 				m.endOfPrefix()
@@ -274,7 +277,7 @@ func (m *Machine) check(c value, label string) {
 		if p.ev.Eval(c) == 0 {
 			// current model already violates
 			m.violation(label, p.Model, "")
-			res, mod := p.Solver.Check(c, p.vars())
+			res, mod := p.solve(c, p.vars())
 			switch res {
 			case sym.Unsat:
 				panic(pathAbort{PathDone, "assertion failed on every input of the path: " + label})
@@ -285,10 +288,10 @@ func (m *Machine) check(c value, label string) {
 				panic(pathAbort{PathUnknown, "unknown after violated assertion"})
 			}
 			p.Decisions = append(p.Decisions, Decision{Taken: true})
-			p.Solver.Assert(c)
+			p.assertPC(c)
 			return
 		}
-		res, mod := p.Solver.Check(p.Ctx.Not(c), p.vars())
+		res, mod := p.solve(p.Ctx.Not(c), p.vars())
 		switch res {
 		case sym.Unsat:
 			p.Decisions = append(p.Decisions, Decision{Taken: true, Forced: true})
@@ -296,11 +299,11 @@ func (m *Machine) check(c value, label string) {
 		case sym.Sat:
 			m.violation(label, mod, "")
 			p.Decisions = append(p.Decisions, Decision{Taken: true})
-			p.Solver.Assert(c)
+			p.assertPC(c)
 		default:
 			p.Unknowns++
 			p.Decisions = append(p.Decisions, Decision{Taken: true})
-			p.Solver.Assert(c)
+			p.assertPC(c)
 			p.Notes["assert_unknown"]++
 			p.Status = PathUnknown
 			p.Detail = "assertion query unknown: " + label + " " + p.Solver.LastError
@@ -334,4 +337,31 @@ func (m *Machine) newVar(name string, s sym.Sort, kind string) *sym.Term {
 	}
 	p.Inputs = append(p.Inputs, Input{Name: name, Sort: s, Kind: kind})
 	return p.Ctx.Var(s, name)
+}
+
+func (p *Path) assertPC(t *sym.Term) {
+	p.pc = append(p.pc, t)
+	p.Solver.Assert(t)
+}
+
+// solve asks the primary solver and, on unknown, the fallback back ends with
+// the same path condition.
+func (p *Path) solve(extra *sym.Term, vars []*sym.Term) (sym.Result, map[string]uint64) {
+	res, mod := p.Solver.Check(extra, vars)
+	if res != sym.Unknown || p.Fallback == nil {
+		return res, mod
+	}
+	for _, fb := range p.Fallback() {
+		fb.Reset()
+		for _, t := range p.pc {
+			fb.Assert(t)
+		}
+		r2, m2 := fb.Check(extra, vars)
+		if r2 != sym.Unknown {
+			p.FallbackUsed++
+			p.Notes["fallback_"+fb.Kind]++
+			return r2, m2
+		}
+	}
+	return res, mod
 }
